@@ -45,6 +45,7 @@ for _n in (2, 3, 4):
             coeffs = c.items(c.callm(seg, 'poly', return_coeffs=True))
             c.ensures('len(coeffs)', len(coeffs) == n)
             c.ensures('horner(coeffs,t)==bernstein', ops.eq(bez.horner(coeffs, t), bez.bern(P, t)))
+            c.ensures('coeffs==monomial-basis-coefficients', ops.eq(list(coeffs), bez.power_coeffs(P)))
             p = c.callm(seg, 'poly')
             c.ensures('poly()-is-poly1d', c.is_poly1d(p))
             c.ensures('poly()(t)==bernstein', ops.eq(c.call(p, t), bez.bern(P, t)))
@@ -105,6 +106,7 @@ def bezier2polynomial(c, n):
     t = c.real('t')
     co = c.items(c.call('bezier.bezier2polynomial', tuple(P)))
     c.ensures('numpy-order', ops.eq(bez.horner(co, t), bez.bern(P, t)))
+    c.ensures('coeffs==monomial-basis-coefficients', ops.eq(list(co), bez.power_coeffs(P)))
     co2 = c.items(c.call('bezier.bezier2polynomial', tuple(P), numpy_ordering=False))
     c.ensures('standard-order-is-reverse', ops.eq(list(co2), list(co)[::-1]))
     p = c.call('bezier.bezier2polynomial', tuple(P), return_poly1d=True)
